@@ -1,8 +1,11 @@
 pub mod closures;
 pub mod common;
+pub mod derive;
 pub mod evalorder;
 pub mod generics;
 pub mod lattice;
+pub mod methods;
+pub mod names;
 pub mod numbers;
 pub mod parse_rt;
 pub mod patterns;
@@ -31,6 +34,10 @@ pub fn all() -> Vec<Box<dyn Family>> {
         Box::new(numbers::Numbers),
         Box::new(closures::Closures),
         Box::new(generics::Generics),
+        Box::new(methods::Methods),
+        Box::new(derive::Derive),
+        Box::new(names::NamesFamily),
+        Box::new(names::Encoders),
     ]
 }
 
